@@ -256,6 +256,18 @@ func c16Gen(t *rapid.T) c16Case {
 		c.Specs = append(c.Specs, s)
 		c.Parsed = append(c.Parsed, rapid.IntRange(0, 2).Draw(t, "parsed"))
 	}
+	// twins: an object that differs from a pool member in one constructor argument only (a Circle with the same
+	// centre and radius but another step count): a process-wide cache keyed on part of the arguments mixes them up
+	for i := range c.Specs {
+		if c.Specs[i].Kind == "Circle" && rapid.Bool().Draw(t, "twin") {
+			tw := c.Specs[i]
+			tw.Steps = rapid.SampledFrom([]int{3, 4, 5, 8, 17, 64}).Draw(t, "twinsteps")
+			c.Specs = append(c.Specs, tw)
+			c.Parsed = append(c.Parsed, 0)
+			n++
+			break
+		}
+	}
 	for i := rapid.IntRange(2, 4).Draw(t, "ndocs"); i > 0; i-- {
 		c.Docs = append(c.Docs, gj.Doc(t, gj.Opts{MaxDepth: 2, Lattice: true, NoCircle: i%2 == 0}))
 	}
